@@ -20,6 +20,8 @@ import (
 	"sync/atomic"
 	"time"
 
+	"github.com/pingcap/kvproto/pkg/kvrpcpb"
+	"github.com/tikv/client-go/v2/tikvrpc"
 	"k8s.io/client-go/tools/leaderelection/resourcelock"
 
 	"github.com/kubewharf/kubebrain/pkg/backend"
@@ -33,7 +35,7 @@ import (
 // ---------- case description ----------
 
 type opSpec struct {
-	Kind  string `json:"kind"`            // get | create | update | acquire (Get, then Create if NotFound else Update) | info (leader.go GetLeaderInfo/GetElectionInfo/Describe on the node)
+	Kind  string `json:"kind"`            // release (Update to an empty holder without a Get: client-go's release()) | get | create | update | acquire (Get, then Create if NotFound else Update) | info (leader.go GetLeaderInfo/GetElectionInfo/Describe on the node)
 	Fault string `json:"fault,omitempty"` // "" | err (engine call fails) | unknown (commit answers storage.ErrUncertainResult, applied iff its condition holds) | unknown-lost (same answer, nothing applied) | tso (timestamp read fails)
 }
 
@@ -127,12 +129,57 @@ func (b *mutantBatch) PutIfNotExist(k, v []byte, ttl int64) {
 	b.BatchWrite.PutIfNotExist(k, v, ttl)
 }
 
+// EngTiKVRPC: the TiKV adapter over a mock cluster with one client store per candidate slot, each behind its own
+// RPC interceptor: a candidate's planned fault "rpc-retryable" / "rpc-abort" answers the prewrite of its lock write
+// with a Retryable / Abort key error (nothing is written), below the adapter, the way a cluster produces it.
+const EngTiKVRPC = "tikv-rpc"
+
+var (
+	slotKV   [3]storage.KvStorage
+	slotCand [3]*cand
+)
+
+func openRPCSlots() (storage.KvStorage, func(), error) {
+	h, err := lib.NewTiKVHooked()
+	if err != nil {
+		return nil, nil, err
+	}
+	raw, err := h.Open(1, nil, nil) // the harness's own reads and seeding: no interceptor
+	if err != nil {
+		return nil, nil, err
+	}
+	for i := range slotKV {
+		i := i
+		hook := func(ctx context.Context, addr string, req *tikvrpc.Request, next func() (*tikvrpc.Response, error)) (*tikvrpc.Response, error) {
+			if c := slotCand[i]; c != nil && req.Type == tikvrpc.CmdPrewrite {
+				if cur := c.cur; cur != nil {
+					switch cur.Fault {
+					case "rpc-retryable":
+						return &tikvrpc.Response{Resp: &kvrpcpb.PrewriteResponse{Errors: []*kvrpcpb.KeyError{{Retryable: "injected: retry the transaction"}}}}, nil
+					case "rpc-abort":
+						return &tikvrpc.Response{Resp: &kvrpcpb.PrewriteResponse{Errors: []*kvrpcpb.KeyError{{Abort: "injected: transaction aborted"}}}}, nil
+					}
+				}
+			}
+			return next()
+		}
+		if slotKV[i], err = h.Open(1, hook, nil); err != nil {
+			return nil, nil, err
+		}
+	}
+	return raw, h.Close, nil
+}
+
 var backendsMade int
 var opSeq int64
 
-func newCand(i int, spec candSpec, kv storage.KvStorage, prefix string, sched *lib.Sched, viaBackend bool, mutant string, commitPark bool) *cand {
+func newCand(i int, spec candSpec, kv storage.KvStorage, prefix string, sched *lib.Sched, viaBackend bool, mutant string, commitPark bool, rpcSlots bool) *cand {
 	c := &cand{idx: i, spec: spec, sched: sched, commitPark: commitPark}
 	inner := kv
+	if rpcSlots {
+		inner = slotKV[i]
+		slotCand[i] = c
+	}
 	if mutant != "" {
 		inner = &mutantKV{KvStorage: kv, mode: mutant}
 	}
@@ -199,6 +246,8 @@ func envName(kind, fault string) string {
 		return "GOk"
 	}
 	switch fault {
+	case "rpc-retryable", "rpc-abort":
+		return "CRefused"
 	case "err", "unknown-lost":
 		return "CErr"
 	case "unknown":
@@ -233,14 +282,19 @@ func (c *cand) doOp(op opSpec) string {
 		if g1, b, ok := c.tap.GetSnapshot(); g1 > g0 && ok {
 			o.gotB, o.gotOK, o.Got = b, true, string(b)
 		}
-	case "create", "update":
+	case "create", "update", "release":
 		c.seq++
 		transitions := 0
-		if op.Kind == "update" {
+		if op.Kind != "create" {
 			transitions = c.seq
 		}
-		ler := lib.ElRecord(c.spec.ID, 100*(c.idx+1)+c.seq, transitions)
-		o.Holder = c.spec.ID
+		holder := c.spec.ID
+		if op.Kind == "release" {
+			// what client-go's release() sends: an Update with an empty holder, with no Get before it
+			holder, o.Kind = "", "update"
+		}
+		ler := lib.ElRecord(holder, 100*(c.idx+1)+c.seq, transitions)
+		o.Holder = holder
 		o.Bytes = lib.ElMarshal(ler)
 		o.BytesQ = string(o.Bytes)
 		var err error
@@ -330,7 +384,7 @@ func runSchedule(cs caseSpec, kv storage.KvStorage, forced []int, rnd *lib.Rand)
 	cands := make([]*cand, len(cs.Cands))
 	threads := make([]*lib.Thread, len(cs.Cands))
 	for i, sp := range cs.Cands {
-		cands[i] = newCand(i, sp, kv, prefix, sched, cs.Backend, cs.Mutant, cs.CommitPark)
+		cands[i] = newCand(i, sp, kv, prefix, sched, cs.Backend, cs.Mutant, cs.CommitPark, cs.Engine == EngTiKVRPC)
 	}
 	for i := range cands {
 		c := cands[i]
@@ -554,6 +608,7 @@ func buildDict(maxSeq int) string {
 		for seq := 1; seq <= maxSeq; seq++ {
 			register(fmt.Sprintf("c_%s_%d", id, seq), lib.ElMarshal(lib.ElRecord(id, 100*(i+1)+seq, 0)))
 			register(fmt.Sprintf("u_%s_%d", id, seq), lib.ElMarshal(lib.ElRecord(id, 100*(i+1)+seq, seq)))
+			register(fmt.Sprintf("x_%s_%d", id, seq), lib.ElMarshal(lib.ElRecord("", 100*(i+1)+seq, seq)))
 		}
 	}
 	return strings.Join(dictDefs, "\n")
@@ -678,15 +733,22 @@ func main() {
 		w.Add(lib.Case{Coq: caseCoq(r), JSON: js, Kind: cs.Engine + "/" + cs.Kind, Trivial: writes == 0, Outcomes: outs})
 	}
 
-	for _, eng := range engines {
-		kv, closer, err := lib.NewEngine(eng, args.Scratch)
+	for _, eng := range append(append([]string{}, engines...), EngTiKVRPC) {
+		var kv storage.KvStorage
+		var closer func()
+		var err error
+		if eng == EngTiKVRPC {
+			kv, closer, err = openRPCSlots()
+		} else {
+			kv, closer, err = lib.NewEngine(eng, args.Scratch)
+		}
 		if err != nil {
 			w.Fail(lib.ImplFailure{Code: 0, What: "engine " + eng + " does not open: " + err.Error()})
 			continue
 		}
 		madeHere := 0
 		useBackend := func(n int) bool { // the first cases of every engine go through backend.NewBackend
-			if backendsMade+n <= maxBackends && madeHere+n <= maxBackends/len(engines) {
+			if eng != EngTiKVRPC && backendsMade+n <= maxBackends && madeHere+n <= maxBackends/len(engines) {
 				madeHere += n
 				return true
 			}
@@ -738,6 +800,35 @@ func main() {
 		} {
 			cfg.CommitPark = true
 			explore(cfg)
+		}
+		// a stalled ex-leader resumes and releases (Update to an empty holder, no Get before it: client-go's release())
+		// after a competitor has taken over: the release must be refused, the new leader's record stays, and a third
+		// candidate must not find the lock free
+		explore(mk(eng, "absent", "corpus-stale-release", prog("create", "release"), prog("get", "update"), prog("acquire")))
+		explore(mk(eng, "held", "corpus-stale-release", prog("get", "update", "release", "get", "release"), prog("get", "update")))
+		if eng == EngTiKVRPC {
+			// the engine refuses one candidate's lock write at its commit (prewrite answered with a Retryable / Abort key
+			// error) while another candidate conditioned on the same record does the real write: the refused candidate must
+			// see an error; whoever reports success must be the stored holder
+			for _, f := range []string{"rpc-retryable", "rpc-abort"} {
+				explore(caseSpec{Engine: eng, Init: "held", Kind: "corpus-refused-update-" + f, Cands: []candSpec{
+					{ID: "A", Prog: []opSpec{{Kind: "get"}, {Kind: "update", Fault: f}, {Kind: "get"}, {Kind: "update"}}},
+					{ID: "B", Prog: prog("get", "update")}}})
+				explore(caseSpec{Engine: eng, Init: "absent", Kind: "corpus-refused-create-" + f, Cands: []candSpec{
+					{ID: "A", Prog: []opSpec{{Kind: "get"}, {Kind: "create", Fault: f}, {Kind: "get"}}},
+					{ID: "B", Prog: prog("get", "create")}}})
+			}
+			two := [][]opSpec{prog("get", "create"), prog("get", "update"), prog("acquire")}
+			for _, init := range []string{"absent", "held"} {
+				for _, pa := range two {
+					for _, pb := range two {
+						explore(mk(eng, init, "exh-2x2", pa, pb))
+					}
+				}
+			}
+			lib.ElRetire()
+			closer()
+			continue
 		}
 		// unknown-outcome commits that did NOT land because a competitor won: the lock object may only report them
 		// as errors, never as an acquisition
@@ -794,7 +885,7 @@ func main() {
 		explore(mk(eng, "absent", "exh-3x1", prog("get", "create"), prog("get", "create"), prog("acquire")))
 
 		// --- random beyond: 2..3 candidates, longer programs, engine faults, random schedules ---
-		kinds := []string{"get", "get", "update", "update", "create", "acquire", "acquire", "info"}
+		kinds := []string{"get", "get", "update", "update", "create", "acquire", "acquire", "info", "release"}
 		faults := []string{"", "", "", "", "", "err", "unknown", "unknown-lost", "tso"}
 		for i := 0; i < nRandom; i++ {
 			n := 2 + rnd.Intn(2)
